@@ -12,7 +12,9 @@ let path_of (uri : n list) : n list =
   if i < 0 then uri else begin
     let rec find_slash j = if j >= n then n else if a.(j) = 47 then j else find_slash (j + 1) in
     let j = find_slash (i + 3) in
-    drop_n j uri
+    (* uri_whitespace strip (squid.conf default): white space inside the target is removed before the URL is used;
+       URL handling itself is outside the model *)
+    List.filter (fun c -> let v = int_of_n c in not (v = 32 || v = 9 || v = 11 || v = 12 || v = 13)) (drop_n j uri)
   end
 let item tag (f : fwd) =
   let cl = if f.fw_cl = [] then "-" else String.concat "+" (List.map hex_of_bytes f.fw_cl) in
